@@ -281,13 +281,21 @@ class mapper(object):
             raise ValueError("memory location slc is not supported")
         elif loc._is_ptr:
             r = v
-            oldr = self.__map.get(loc, None)
-            if oldr is not None and oldr.size > r.size:
-                r = composer([r, oldr[r.size : oldr.size]])
             if k._is_mem:
                 endian = k.endian
             else:
                 endian = 1
+            oldr = self.__map.get(loc, None)
+            if oldr is not None and oldr.size > r.size:
+                if loc.base._is_vec or (r.size % 8) or (oldr.size % 8):
+                    r = composer([r, oldr[r.size : oldr.size]])
+                else:
+                    # the bytes of the wider value that follow the new one are taken
+                    # from memory: the recorded value is stale if an overlapping store
+                    # occurred since, and its layout depends on the byte order.
+                    nxt = ptr(loc.base, loc.seg, loc.disp + r.length)
+                    rest = self._Mem_read(nxt, oldr.length - r.length, endian)
+                    r = composer([r, rest] if endian == 1 else [rest, r])
             self._Mem_write(loc, r, endian)
             if conf.Cas.memtrace or not conf.Cas.noaliasing:
                 # if we assume that aliasing may exists, we
